@@ -216,6 +216,12 @@ def _compare(res, fac, pair, block, kind):
     ids = [d.unique_id for d in devs]
     if len(set(ids)) != len(ids):
         res.fail("C12|duplicate-unique-id", f"unique ids not distinct: {sorted({i for i in ids if ids.count(i) > 1})}")
+    # ... and unique beyond this facade: an id is the facade's own unique id (the spa's identifier) plus the key, never the spa's
+    # name, which the user may change and which two spas may share
+    for d in devs:
+        if d.unique_id != f"{fac.unique_id}-{d.key}":
+            res.fail("C12|unique-id-not-from-facade-id", f"device {d.key}: unique id {d.unique_id!r}, the facade's unique id is {fac.unique_id!r} (spa name {fac.name!r})")
+            break
     if list(fac.devices) != keys:
         res.fail("C12|devices-list", f"facade.devices {fac.devices} != keys of all_automation_devices {keys}")
     for d in devs:
@@ -279,7 +285,25 @@ def run_case(case) -> Result:
             fac = GeckoFacade(spa)
 
             def go():
+                # a client thread polling `facade.is_connected` may run at any instant of the inventory scan (the spa reports itself
+                # connected before the facade has scanned its outputs): "connected" must imply that the inventory can be read
+                probes = []
+                orig_scan = fac.scan_outputs
+
+                def scan_with_reader():
+                    if fac.is_connected:
+                        try:
+                            probes.append(("early", list(fac.pumps) + list(fac.blowers) + list(fac.lights)))
+                        except Exception as exc:  # noqa
+                            probes.append(("raises", repr(exc)))
+                    return orig_scan()
+                fac.scan_outputs = scan_with_reader
                 spa.on_connected(spa)
+                fac.scan_outputs = orig_scan
+                if probes:
+                    res.fail("C12|connected-before-inventory|sync", f"facade.is_connected was already True when the output scan began: a reader at that instant gets {probes[0]}")
+                if not fac.is_connected:
+                    res.fail("C12|never-connected|sync", "facade.is_connected is False after the inventory was built on a connected spa")
                 return _compare(res, fac, pair, block, kind)
             guarded(go)
     else:
